@@ -919,23 +919,28 @@ def asarray(path, array, dtype=None, accessmode='r',
         raise ValueError(f"'{path}' is the same as the path of the "
                          f"source darr.")
     chunkiter = _archunkgenerator(array, dtype=dtype, chunklen=chunklen)
-    firstchunk = next(chunkiter)
-    if firstchunk.ndim == 0:  # we received a number instead of an array
-        firstchunk = np.array(firstchunk, ndmin=1, dtype=dtype)
-    if firstchunk.dtype.name not in numtypesdescr.keys():
-        raise TypeError(f"darr cannot have type "
-                        f"'{firstchunk.dtype.name}'")
-    dtype = firstchunk.dtype
-    bd = create_datadir(path=path, overwrite=overwrite)
-    datapath = path.joinpath(Array._datafilename)
-    arraylen = firstchunk.shape[0]
-    with open(datapath, 'wb') as df:
-        firstchunk.tofile(df)
-        for chunk in chunkiter:
-            if chunk.ndim == 0:
-                chunk = np.array(chunk, ndmin=1, dtype=dtype)
-            chunk.astype(dtype).tofile(df)  # is always C order
-            arraylen += chunk.shape[0]
+    try:
+        firstchunk = next(chunkiter)
+        if firstchunk.ndim == 0:  # we received a number instead of an array
+            firstchunk = np.array(firstchunk, ndmin=1, dtype=dtype)
+        if firstchunk.dtype.name not in numtypesdescr.keys():
+            raise TypeError(f"darr cannot have type "
+                            f"'{firstchunk.dtype.name}'")
+        dtype = firstchunk.dtype
+        bd = create_datadir(path=path, overwrite=overwrite)
+        datapath = path.joinpath(Array._datafilename)
+        arraylen = firstchunk.shape[0]
+        with open(datapath, 'wb') as df:
+            firstchunk.tofile(df)
+            for chunk in chunkiter:
+                if chunk.ndim == 0:
+                    chunk = np.array(chunk, ndmin=1, dtype=dtype)
+                chunk.astype(dtype).tofile(df)  # is always C order
+                arraylen += chunk.shape[0]
+    finally:
+        # if we failed half-way the generator would otherwise keep its
+        # source (e.g. a darr Array that is being copied) open
+        chunkiter.close()
     shape = list(firstchunk.shape)
     shape[0] = arraylen
     datainfo = arraynumtypeinfo(firstchunk)
